@@ -89,6 +89,7 @@ class TriggerHandler:
         self.__old_thread_trace = None
         self.__old_sys_trace = None
         self.__start_thread = None
+        self.__hooks_installed = False
         self.__shutdown = False
         self._push_service = push_service
         self._tp_config: List[Trigger] = []
@@ -104,6 +105,9 @@ class TriggerHandler:
         if self._config.NO_TRACE:
             return
         self.__start_thread = threading.get_ident()
+        # remembered here: this is looked at on every trace event after shutdown, where we must not go through the config
+        # (an unknown key is logged, and we may be called from inside the logging module)
+        self.__hooks_installed = True
         self.__old_sys_trace = sys.gettrace()
         # gettrace was added in 3.10, so use it if we can, else try to get from property
         # noinspection PyUnresolvedReferences,PyProtectedMember
@@ -176,7 +180,7 @@ class TriggerHandler:
         calling us. Each puts back what it would have had without us when it next gets here.
         """
         try:
-            if not self._config.NO_TRACE and sys.gettrace() == self.trace_call:
+            if self.__hooks_installed and sys.gettrace() == self.trace_call:
                 mine = threading.get_ident() == self.__start_thread
                 sys.settrace(self.__old_sys_trace if mine else self.__old_thread_trace)
         except BaseException:
